@@ -31,6 +31,11 @@ theorem NoUB.readN (n : Nat) : NoUB (Sbdf.readN n) := by
 theorem NoUB.seek (dl : Int) : NoUB (Sbdf.seek dl) := by
   constructor; intro d pos w; unfold Sbdf.seek; split <;> simp
 
+theorem NoUB.skipBytes (c : Cfg) (dl : Int) : NoUB (Sbdf.skipBytes c dl) := by
+  unfold Sbdf.skipBytes Sbdf.discard; split
+  · exact NoUB.bind (NoUB.readN _) (fun _ => NoUB.pure _)
+  · exact NoUB.seek _
+
 theorem NoUB.alloc (c : Cfg) (n : Int) : NoUB (Sbdf.alloc c n) := by
   unfold Sbdf.alloc; split
   · exact NoUB.fail _
@@ -61,7 +66,7 @@ theorem NoUB.skipMany {p : P Unit} (hp : NoUB p) (n : Nat) : NoUB (skipMany n p)
 macro "nub_tac" "[" ls:Lean.Parser.Tactic.SolveByElim.arg,* "]" : tactic =>
   `(tactic| (repeat' (first
       | exact NoUB.pure _ | exact NoUB.fail _ | exact NoUB.readN _
-      | exact NoUB.seek _ | exact NoUB.alloc _ _
+      | exact NoUB.seek _ | exact NoUB.skipBytes _ _ | exact NoUB.alloc _ _
       | solve_by_elim (maxDepth := 3) only [$ls,*]
       | refine NoUB.bind ?_ (fun _ => ?_)
       | refine NoUB.readMany ?_ _
